@@ -285,7 +285,8 @@ def shutdown(ctx: Ctx, rule="R-C03-SHUTDOWN") -> None:
     ctx.check(ok, rule, f, "finish_gracefully waits for all running tasks, bounded by its timeout", "asyncio.wait(self._tasks, ALL_COMPLETED, timeout=timeout)",
               f"finish_gracefully waits with {unparse(waits[0])[:100] if waits else 'nothing'}", instance="finish_gracefully wait")
     f = ctx.func(f"{C.RUNNER}.stop_wait_and_cancel")
-    sl = [c for c in ast.walk(f.node) if isinstance(c, ast.Call) and (dotted(c.func) or "").endswith("asyncio.sleep")]
+    sl = [c for c in ast.walk(f.node) if isinstance(c, ast.Call) and (dotted(C.injected_default(f, c.func)) or "").endswith("asyncio.sleep")
+          and any(isinstance(a, ast.Await) and a.value is c for a in ast.walk(f.node))]
     ctx.check(len(sl) == 1 and dotted(sl[0].args[0]) == "wait_for", rule, f, "stop_wait_and_cancel sleeps the graceful period", "sleep(wait_for)", "stop_wait_and_cancel does not wait the given period", instance="stop_wait_and_cancel sleep")
     sh = ctx.func(f"{C.WORKER}._register_signals")
     h = sh.nested.get("signal_handler") or (list(sh.nested.values())[0] if len(sh.nested) == 1 else None)
